@@ -1,6 +1,6 @@
 """C07 — the dependency graph stays acyclic, same-kind and between live items."""
 import json
-from .. import common, framework, fndiff, cmdrun, gen, oracles
+from .. import common, framework, fndiff, cmdrun, gen, oracles, explore2
 from ..histories import run_history, replay_trace
 
 WEIGHTS = {"new_task": 16, "new_epic": 8, "set": 10, "sequence": 36, "sequence_rm": 8, "plan": 8, "prune_yes": 7, "compact": 3, "claim_oldest": 2, "malformed": 2}
@@ -52,7 +52,17 @@ def run(ctx):
     r = gen.Rng(ctx.seed * 1000003 + 7)
     for h in range(25 if ctx.quick else 400):
         run_history(ctx, r.fork(), 40, WEIGHTS, oracle, gen_fn=gen_fn)
-    ctx.cov["rule"] = ("random event lists → Go replayEvents/hasCycle vs model; seeded histories of link/unlink/prune/plan with ≥30% cycle-closing or "
+    # the cycle test and the write must see the same log: sequence ∥ sequence asking for the two directions of one edge (and sequence ∥ any
+    # other writer) on the real binary, A parked before / inside / after its lock section; the graph must stay acyclic in every schedule
+    framework.check_facts(ctx, ctx.facts, ["lock_sites", "writer_calls", "with_lock", "sections"])
+    def post(g):
+        bad = oracles.inv07(g)
+        return ("dependency graph invariant broken (%s)" % (bad[0][0] if isinstance(bad[0], (list, tuple)) else bad[0]), str(bad[:3])) if bad else None
+    for i in range(6 if ctx.quick else 120):
+        ka, kb = (("seq_opposed",), ("seq_opposed",)) if i % 3 != 2 else (("sequence",), ("sequence", "prune", "plan"))
+        explore2.explore(ctx, "C07", r.fork(), kindsA=ka, kindsB=kb, max_points=(7 if ctx.quick else 40), state_cmds=8, post_oracle=post,
+                         weights={"new_task": 60, "new_epic": 5, "set": 10, "sequence": 20})
+    ctx.cov["rule"] = ("two-process schedules sequence ∥ sequence (opposite directions of one edge) with the acyclicity post-oracle; random event lists → Go replayEvents/hasCycle vs model; seeded histories of link/unlink/prune/plan with ≥30% cycle-closing or "
                        "mixed-kind attempts; oracle: DFS acyclicity + kind + liveness + deps/rdeps mirror + exact edge effect of sequence")
 
 
